@@ -682,6 +682,11 @@ def rule_base64(ctx, fx, config):
     ctx.saw(dv)
     ints = int_consts(dv)
     ctx.check({65, 90, 97, 122, 48, 57, 43, 47, 26, 52, 62, 63} <= ints, "BASE64", "C06:BASE64:alphabet", "standard alphabet ranges and offsets", "base64 alphabet constants changed: %s" % sorted(ints), config, ctx.where(dv))
+    # ... and nothing else: the symbol table has exactly 64 entries.  A further byte value decoded to a sextet (`=` → 0 is the
+    # tempting one) makes padding a data symbol wherever the caller's position checks do not look.
+    extra = sorted(x for x in ints if x not in (65, 90, 97, 122, 48, 57, 43, 47, 26, 52, 62, 63, 0, 1))
+    ctx.check(not extra, "BASE64", "C06:BASE64:alphabet:exactly-64-symbols", "decode_val knows the 64 symbols of the alphabet and no other byte",
+              "decode_val handles further byte values %s (%s): a byte outside the alphabet is decoded to a sextet instead of being rejected" % (extra, ", ".join(repr(chr(x)) for x in extra if 32 <= x < 127)), config, ctx.where(dv))
 
 
 def run(ctx):
